@@ -9,5 +9,6 @@ var verifHarnesses = map[string]func(){
 	"VerifC15Long":        VerifC15Long,
 	"VerifC17Sio":         VerifC17Sio,
 	"VerifC17SioRestart":  VerifC17SioRestart,
+	"VerifC17SioCrew":     VerifC17SioCrew,
 	"VerifSioOrderLemmas": VerifSioOrderLemmas,
 }
